@@ -239,6 +239,7 @@ func c11RunE2E(t *testing.T, lane string, alt bool, n int, rule string) {
 		}
 		m := r.Intn(limit + 2) // 0 .. limit+1 redirects scripted
 		auths := []string{a0.render()}
+		c11AuthOf := map[string]c11Auth{a0.render(): a0}
 		for len(auths) < m+1 {
 			var b c11Auth
 			switch r.Intn(4) {
@@ -248,6 +249,7 @@ func c11RunE2E(t *testing.T, lane string, alt bool, n int, rule string) {
 				b = vary(a0)
 			}
 			auths = append(auths, b.render())
+			c11AuthOf[b.render()] = b
 		}
 		reuse := prevCl != nil && r.Intn(2) == 0
 		// if the chain would not get anywhere because of an allowed-list, sometimes add the hosts
@@ -324,6 +326,41 @@ func c11RunE2E(t *testing.T, lane string, alt bool, n int, rule string) {
 		for _, kv := range ih {
 			rq.Headers[kv[0]] = append(rq.Headers[kv[0]], kv[1])
 		}
+		// Host header override (request level or as a common header of the client): what the origin
+		// reads in Host / :authority changes, NOT which host the request was addressed to. The
+		// override names a relative of a later hop (the host a redirect will point to), of the first
+		// host, or an unrelated authority. Locations are absolute here, so net/http drops the override
+		// after the first request; the model line does not mention it at all.
+		commonHost, hostNote := false, ""
+		if r.Intn(3) == 0 {
+			var ov c11Auth
+			switch k := r.Intn(4); {
+			case k < 2 && len(auths) > 1:
+				ov = vary(c11AuthOf[auths[1+r.Intn(len(auths)-1)]])
+			case k == 2:
+				ov = vary(a0)
+			default:
+				ov = gen()
+			}
+			if r.Intn(4) == 0 && len(auths) > 1 {
+				ov = c11AuthOf[auths[1]]
+			}
+			if r.Intn(2) == 0 {
+				rq.Headers["Host"] = []string{ov.render()}
+				s.Count("host-override:request")
+			} else {
+				cl.SetCommonHeader("Host", ov.render())
+				commonHost = true
+				s.Count("host-override:client")
+			}
+			hostNote = " Host-override=" + ov.render()
+			if commonHost {
+				hostNote += "(common header)"
+			}
+			if len(auths) > 1 && c11OracleHostOf(ov.render()) == c11OracleHostOf(auths[1]) && c11OracleHostOf(auths[0]) != c11OracleHostOf(auths[1]) {
+				s.Count("host-override=next-hop-host")
+			}
+		}
 		altHosts := map[string]bool{}
 		if alt {
 			jar := cl.Transport.altSvcJar
@@ -362,6 +399,9 @@ func c11RunE2E(t *testing.T, lane string, alt bool, n int, rule string) {
 			}
 		}
 		resp, err := rq.Get(farm.scheme + "://" + c11URLHost(auths[0]) + "/0")
+		if commonHost {
+			cl.Headers.Del("Host")
+		}
 		// what the policies see as via[0] is the URL the client built: parseRequestURL drops an
 		// empty port from the first URL (and nothing else); after the call the request must still
 		// name that origin — nothing below the client may rewrite the URL of a request in flight
@@ -508,7 +548,7 @@ func c11RunE2E(t *testing.T, lane string, alt bool, n int, rule string) {
 		if stripped {
 			s.Count("cross-origin-strip")
 		}
-		human := scen + c11ShowPols(ps) + " chain=" + strings.Join(auths, " -> ") + " => " + outcome + " received=" + strconv.Itoa(len(recs))
+		human := scen + c11ShowPols(ps) + hostNote + " chain=" + strings.Join(auths, " -> ") + " => " + outcome + " received=" + strconv.Itoa(len(recs))
 		if urlRewritten != "" {
 			detail = "URL.Host of the original request was rewritten to " + urlRewritten + " " + detail
 		}
@@ -519,7 +559,8 @@ func c11RunE2E(t *testing.T, lane string, alt bool, n int, rule string) {
 			c11EncHeaders(ih) + " " + verifh.HexList(probes)
 		s.Case(line, ans, ok, class, m > 0, human)
 	}
-	must := []string{"direct", "reused-client", "family:original", "family:set-on-clone", "family:clone-of-clone-inherits", "family:clone-inherits,parent-reconfigured-later", "family:clone-inherits", "outcome:final", "outcome:refused", "outcome:last", "cross-origin-strip", "pol:copy", "pol:samehost", "pol:samedomain", "pol:ahost", "pol:adomain", "pol:no", "pol:nil", "pol:max", "hops-scripted:0", "hops-scripted:3", "host0-normalised-by-client"}
+	must := []string{"direct", "reused-client", "family:original", "family:set-on-clone", "family:clone-of-clone-inherits", "family:clone-inherits,parent-reconfigured-later", "family:clone-inherits", "outcome:final", "outcome:refused", "outcome:last", "cross-origin-strip", "pol:copy", "pol:samehost", "pol:samedomain", "pol:ahost", "pol:adomain", "pol:no", "pol:nil", "pol:max", "hops-scripted:0", "hops-scripted:3", "host0-normalised-by-client",
+		"host-override:request", "host-override:client", "host-override=next-hop-host"}
 	if alt {
 		must = append(must, "altsvc-entry", "altsvc-entry-for-first-origin", "request-carried-by-alternative")
 	}
